@@ -222,7 +222,7 @@ macro_rules! concat_harness {
 concat_harness!(c17_concat_entry_00, 0, 0, T, 0usize, 0usize);
 concat_harness!(c17_concat_entry_21, 0, 0, T, 2usize, 1usize);
 concat_harness!(c17_concat_entry_03, 0, 0, T, 0usize, 3usize);
-concat_harness!(c17_concat_entry_30, 0, 0, T, 3usize, 0usize);
+concat_harness!(x_concat_entry_30, 0, 0, T, 3usize, 0usize);
 concat_harness!(c17_concat_i10, 1, 0, T);
 concat_harness!(c17_concat_i20, 2, 0, T);
 concat_harness!(c17_concat_i30, 3, 0, T);
